@@ -19,18 +19,21 @@ def prefixes(xs):
     return out
 JCMD = "http://yang.juniper.net/junos/jcmd"
 
-def stmt(name, comment=None, active=None, body="reject", order="comment-first", dupxmlns=False, extra=False):
-    attrs = [["xmlns:jcmd", JCMD]]
+def stmt(name, comment=None, active=None, body="reject", order="comment-first", dupxmlns=False, extra=False, nspfx="jcmd"):
+    # the prefix the namespace of the two attributes is bound to is the router's choice: "jcmd" as Junos writes it,
+    # another one, or two prefixes for the one namespace (comment under one, active under the other)
+    pc, pa = {"jcmd": ("jcmd", "jcmd"), "other": ("j", "j"), "two": ("jcmd", "cmd")}[nspfx]
+    attrs = [[f"xmlns:{pc}", JCMD]] + ([[f"xmlns:{pa}", JCMD]] if pa != pc else [])
     a = []
     if comment is not None:
-        a.append(["jcmd:comment", comment])
+        a.append([f"{pc}:comment", comment])
     if active is not None:
-        a.append(["jcmd:active", active])
+        a.append([f"{pa}:active", active])
     if order == "active-first":
         a.reverse()
     attrs += a
     if dupxmlns:
-        attrs.append(["xmlns:jcmd", JCMD])
+        attrs.append([f"xmlns:{pc}", JCMD])
     if extra:
         attrs.append(["junos:changed-seconds", "1709120869"])
     return {"name": name, "attrs": attrs, "body": body}
@@ -85,7 +88,7 @@ def hist_scenarios(histories, per_scenario, prop, rng, small=0):
         pool = ending if (k % 2 == 0 and ending) else hs
         chunks.append(rng.sample(pool, min(len(pool), 1 + (k // 2) % 2)))
     base = 0
-    for chunk in chunks:
+    for ci, chunk in enumerate(chunks):
         s = base; base += len(chunk)
         depth = len(chunk[0])
         runs = []
@@ -110,7 +113,10 @@ def hist_scenarios(histories, per_scenario, prop, rng, small=0):
             # on every second router: policies whose evaluation meets IRR errors that the evaluator sinks by design (the
             # route queries of one member AS answered F / E): they are installed with what the other members originate,
             # and whatever the evaluator remembers of those errors must not touch the policies evaluated after them
-            if (s // max(1, per_scenario)) % 2 == 0 or len(chunk) <= 2:
+            # (the routers with one or two policies take turns: such policies / one that fails / nothing else - only there can
+            # a run consist of removals alone)
+            extra = ci % 3 if len(chunk) <= 2 else (s // max(1, per_scenario)) % 2
+            if extra == 0:
                 for j in range(3):
                     name = f"noisy-{j}"
                     expr = irr.asset_with(["a", "b"] if j % 2 == 0 else ["d"], ["c"])
@@ -120,6 +126,12 @@ def hist_scenarios(histories, per_scenario, prop, rng, small=0):
                     irr.db["errors"][f"!g{asn_bad}"] = ["F", "E", "F"][j]; irr.db["errors"][f"!6{asn_bad}"] = ["F", "E", "F"][j]
                     running.append(stmt(name, f"/* bgpfu-fltr: {expr} */"))
                     policies[name] = exp(True, True, "ok", ["a", "b"] if j % 2 == 0 else ["d"], ["c"], expr, "one member's route queries answered with an error (sunk)")
+            elif extra == 1:
+                # on the other routers: one policy whose evaluation fails in every run (a run with a failed evaluation is
+                # still a run in which every other policy gets exactly what it evaluates to)
+                bexpr, bev = bad_policy(irr, ["unknown-as-set", "error-F"][(s // max(1, per_scenario)) % 2], "-HIST")
+                running.append(stmt("broken", f"/* bgpfu-fltr: {bexpr} */"))
+                policies["broken"] = exp(True, True, bev, why="cannot be evaluated, next to the histories")
             runs.append({"running": running, "irr": irr.db, "faults": [], "repeat": k == depth,
                          "expect": {"prop": prop, "c16": False, "policies": policies}})
         out.append({"case": f"{prop}-h{s}", "instance": "bgpfu", "eph0": [], "runs": runs, "meta": {"family": "hist", "policies": len(chunk)}})
@@ -187,6 +199,23 @@ def c03_scenarios(cases, prop):
             eph0.append(installed(name, ["a", "b"], ["c"]))
             running.append(stmt(name, f"/* bgpfu-fltr: {sexpr} */"))
             policies[name] = exp(True, True, sev, why=f"{cls} shared by several policies, installed=True")
+    # ... share a filter-set whose stored expression can be expanded but not evaluated (it names an as-set nobody registered)
+    fgood = irr.asset_with(["a", "b"], ["c"])
+    irr.db["filter_sets"]["FLTR-SHARED-BAD"] = f"{fgood} AND AS-MISSING-IN-FLTR"
+    for i in range(4):
+        name = f"shared-flt-{i}"
+        eph0.append(installed(name, ["a", "b"], ["c"]))
+        running.append(stmt(name, "/* bgpfu-fltr: FLTR-SHARED-BAD */"))
+        policies[name] = exp(True, True, "fail", why="filter-set over an unknown as-set, shared by several policies, installed=True")
+    # ... and expressions with the unobtainable set as one operand of a top-level OR (the other operands are fine)
+    og = irr.asset_with(["a"], ["c"]); og2 = irr.asset_with(["b"], [])
+    irr.db["errors"]["!iAS-ERR-OR,1"] = "F"
+    for i, oexpr in enumerate([f"{og} OR AS-MISSING-OR", f"AS-MISSING-OR OR {og}", f"{og} OR {og2} OR AS-ERR-OR", "AS-MISSING-OR OR AS-MISSING-OR2",
+                               f"({og} OR AS-MISSING-OR) AND {og2}"]):
+        name = f"or-{i}"
+        eph0.append(installed(name, ["a", "b"], ["c"]))
+        running.append(stmt(name, f"/* bgpfu-fltr: {oexpr} */"))
+        policies[name] = exp(True, True, "fail", why="unobtainable set as an operand of OR, installed=True")
     for i in range(2):
         name = f"good-{i}"; expr = irr.asset_with(["a", "b"], [])
         running.append(stmt(name, f"/* bgpfu-fltr: {expr} */"))
@@ -310,9 +339,11 @@ def shape_scenarios(cases, prop):
         w = irr.asset_with(["b"], []) if wrapped else ""
         com = com.format(e=e, w=w) if com else None
         # escaped characters in names now and then, and names that begin or end with a blank (quoted names may)
-        name = {3: "shape<&>\"'", 5: f" lead-{k}", 6: f"trail-{k} "}.get(k % 7, f"shape-{k}")
-        st = stmt(name, com, None if sh["active"] == "absent" else sh["active"], RAW_BODY.get(sh["body"], sh["body"]), sh["order"], sh["dupxmlns"], sh["extra"])
-        why = " ".join(f"{a}={sh[a]}" for a in ("active", "comment", "body"))
+        # ... and names that contain text which looks like a reference (the name IS "AT&amp;T", written "AT&amp;amp;T")
+        name = {3: "shape<&>\"'", 5: f" lead-{k}", 6: f"trail-{k} ", 1: f"AT&amp;T-{k}", 2: f"pni-&#65;&lt;{k}&gt;"}.get(k % 7, f"shape-{k}")
+        st = stmt(name, com, None if sh["active"] == "absent" else sh["active"], RAW_BODY.get(sh["body"], sh["body"]), sh["order"], sh["dupxmlns"], sh["extra"],
+                  sh.get("nspfx", "jcmd"))
+        why = " ".join(f"{a}={sh[a]}" for a in ("active", "comment", "body")) + ("" if sh.get("nspfx", "jcmd") == "jcmd" else f" prefix={sh['nspfx']}")
         pol = {name: exp(c["sel"], c["marked"], "ok" if c["sel"] else "none", (["a", "b"] if wrapped else ["a"]) if c["sel"] else [], ["c"] if c["sel"] else [],
                          (f"{e} OR {w}" if wrapped else e) if c["sel"] else "", why),
                "control": exp(True, True, "ok", ["d"], [], ctl, "control"),
@@ -586,7 +617,8 @@ def big_scenarios(prop):
     v6 = lambda ks: [str(ipaddress.ip_network("2001:db9:%x::/48" % k)) for k in ks]      # under 2001:db9::/36
     for n in (1000, 1100):
         even, odd = list(range(0, 2 * n, 2)), list(range(1, 2 * n, 2))
-        steps = [(v4(even), v6(even[: n // 2])), (v4(odd), v6(odd[: n // 2])), (v4(odd[:3]), []), ([], [])]
+        # (third step: every IPv4 range replaced - 2n changes in one update - while the IPv6 family empties)
+        steps = [(v4(even), v6(even[: n // 2])), (v4(odd), v6(odd[: n // 2])), (v4(even), []), (v4(odd[:3]), []), ([], [])]
         runs = []
         for k, (p4, p6) in enumerate(steps + [steps[-1]]):
             irr = Irr(); running = []; policies = {}
